@@ -88,6 +88,21 @@ def rule_cache(mod):
     return cands[0] if len(cands) == 1 else {}
 
 
+_INITIAL_RULES = {}
+
+
+def reset_rule_cache(cache):
+    """put the rule cache back to the state it had when the library was imported (remembered at the first call, before the harness
+    has touched it): a cache that is pre-populated at import time is part of what a user gets, so the harness must not wipe it"""
+    import numpy as np
+    key = id(cache)
+    if key not in _INITIAL_RULES:
+        _INITIAL_RULES[key] = {k: np.array(v, copy=True) for k, v in cache.items()}
+        return
+    cache.clear()
+    cache.update({k: np.array(v, copy=True) for k, v in _INITIAL_RULES[key].items()})
+
+
 def generated_steps(obj, x_i):
     """(steps, step_ratio) the differentiator `obj` generates at `x_i`: through its private `_get_steps` when present (an optional
     attachment point), else through the public generator object `obj.step`"""
